@@ -93,6 +93,9 @@ def run_which(ctx, which):
         # every history table the abstract search reaches, written into a real search object: the real find_exit /
         # backtrace / segment iterator on each (a seeded sample in the quick tier)
         cases += [long_after_batch(rng, n + 50 + i) for i in range(3 if quick else 40)]
+        for k, g in enumerate(decmatrix.variant_grammars()):
+            cases.append(decmatrix.make_case(rng, ctx, n + 20 + k, {"result", "partial"},
+                                             {"grammar": g, "audio": "gf", "no_synth": True}))
         cases += synhist.cases(ctx, rng, quick, lambda tag: ["result " + tag], n + 100, count=2000 if quick else None)
     by_id = dict(cases)
     chunks, crashes = decmatrix.run_cases(ctx, drv, cases)
